@@ -28,7 +28,9 @@ def incremental(pid, tier, replay):
     if pid == "C03":
         design = dict(K=1 if q else 3, consts={"MaxInv": 2 if q else 3, "MaxEnv": 1 if q else 2, "MaxClock": 40, "Js": "{1, 2}", "Ks": "{1}", "Crashes": "FALSE", "Toks": "{99}"},
                       invariants=["NoStale", "Minimal", "SecondIsNoop"], timeout=70 if q else 2400, ngraphs=6 if q else None)
-    return engine.engine_check(pid, fams, tier, maxruns=16 if tier == "quick" else 64, design=design, impl=(pid == "C01"))
+    # the same monitors on the real binary and the real file system (RealDiskInterface: stat, mkdir, unlink, real mtimes)
+    h2 = dict(fams=[dict(fam="inc", K=2 if q else 10, CH=3 if q else 6), dict(fam="restat", K=2 if q else 20, CH=2 if q else 4)], limit=90 if q else 1500, maxruns=2)
+    return engine.engine_check(pid, fams, tier, maxruns=16 if tier == "quick" else 64, design=design, impl=(pid == "C01"), h2=h2)
 
 
 @reg("C04")
